@@ -201,3 +201,35 @@ func EnumerateEdits(t reflect.Type, seed int64, mode int) []Edited {
 	}
 	return out
 }
+
+// EnumVariants: a valid base payload with each enum-tagged leaf set, in turn, to every declared constant of its type.
+func EnumVariants(t reflect.Type, seed int64) []Edited {
+	build := func() (reflect.Value, bool) { return ValidValueMode(t, rand.New(rand.NewSource(seed)), 1) }
+	base, ok := build()
+	if !ok {
+		return nil
+	}
+	var out []Edited
+	var leaves []leaf
+	collectStruct(base.Elem(), "", 0, &leaves)
+	for li, l := range leaves {
+		ts, _ := parseTags(l.tag)
+		if ts.enum == "" || l.v.Kind() != reflect.String {
+			continue
+		}
+		for _, val := range enumDeclaredByTag[ts.enum] {
+			v, ok := build()
+			if !ok {
+				continue
+			}
+			var ls []leaf
+			collectStruct(v.Elem(), "", 0, &ls)
+			if li >= len(ls) || ls[li].v.Kind() != reflect.String {
+				continue
+			}
+			ls[li].v.SetString(val)
+			out = append(out, Edited{v, ls[li].path, "enum=" + val})
+		}
+	}
+	return out
+}
